@@ -16,7 +16,9 @@ HARNESS = os.path.join(VERIF, 'harness')
 TLAJAR = '/opt/veriftools/tla/tla2tools.jar:/opt/veriftools/tla/CommunityModules-deps.jar'
 GUARD = 'GOLDILOCKS_VERIF'
 # evidence of runs against a scratch copy (mutation self-tests) must never overwrite the real evidence
-EVID = os.path.join(VERIF, 'evidence') if os.path.realpath(REPO) == '/repo' else os.path.join(CACHE, 'evidence_alt')
+EVID = os.environ.get('VERIF_EVID') or (os.path.join(VERIF, 'evidence') if os.path.realpath(REPO) == '/repo' else os.path.join(CACHE, 'evidence_alt'))
+# a check run as a sub-step of another check works in its own directory (VERIF_RUNTAG) and writes its evidence elsewhere (VERIF_EVID)
+RUNTAG = os.environ.get('VERIF_RUNTAG', '')
 NCPU = os.cpu_count() or 4
 P = 2**64 - 2**32 + 1
 
@@ -139,7 +141,7 @@ class TlcResult:
 
 
 def workdir(tag):
-    d = os.path.join(CACHE, 'run', tag)
+    d = os.path.join(CACHE, 'run', tag + RUNTAG)
     if os.path.exists(d):
         shutil.rmtree(d, ignore_errors=True)
     os.makedirs(d)
